@@ -4,8 +4,10 @@ import (
 	"math/rand"
 	"strings"
 
+	openfgav1 "github.com/openfga/api/proto/openfga/v1"
 	"github.com/openfga/language/pkg/go/transformer"
 	"github.com/openfga/language/pkg/go/utils"
+	"google.golang.org/protobuf/proto"
 )
 
 // expectedAfterRoundTrip is what parsing the printed DSL must give back for model m, per C02:
@@ -184,6 +186,25 @@ func c02Check(c *Ctx, m *Model, stream string) {
 	}
 }
 
+// stripThisPayload turns every `this` of the rewrite into the bare oneof case
+func stripThisPayload(u *openfgav1.Userset) {
+	switch x := u.GetUserset().(type) {
+	case *openfgav1.Userset_This:
+		x.This = nil
+	case *openfgav1.Userset_Union:
+		for _, c := range x.Union.GetChild() {
+			stripThisPayload(c)
+		}
+	case *openfgav1.Userset_Intersection:
+		for _, c := range x.Intersection.GetChild() {
+			stripThisPayload(c)
+		}
+	case *openfgav1.Userset_Difference:
+		stripThisPayload(x.Difference.GetBase())
+		stripThisPayload(x.Difference.GetSubtract())
+	}
+}
+
 func c02TreeModel(u *U) *Model {
 	return &Model{Schema: "1.1", Types: []Type{
 		{Name: "user", MetaNil: true},
@@ -210,6 +231,25 @@ func init() {
 			for _, u := range EnumTrees(n, leaves, memo) {
 				c02Check(c, c02TreeModel(u), "trees")
 				total++
+				// the DSL parser writes a direct assignment as the bare oneof case (no DirectUserset payload), JSON
+				// loading with the payload: the same model either way, so the printer must say the same in every
+				// position of the tree
+				if u.CountThis() > 0 {
+					with := c02TreeModel(u).Proto()
+					bare := proto.Clone(with).(*openfgav1.AuthorizationModel)
+					for _, td := range bare.GetTypeDefinitions() {
+						for _, rw := range td.GetRelations() {
+							stripThisPayload(rw)
+						}
+					}
+					o1, _, _ := realPrint(with, false)
+					o2, _, _ := realPrint(bare, false)
+					c.Dist("trees_printed_without_payload")
+					if o1 != o2 {
+						c.OracleFail("c02:payload", map[string]any{"model": canonModel(with), "tree": u.String()},
+							"the printer treats a direct assignment without DirectUserset payload (the DSL parser's form) differently from one with it", "with payload: "+trunc(o1, 300)+" | without: "+trunc(o2, 300))
+					}
+				}
 			}
 		}
 		c.DistN("exhaustive_trees", total)
